@@ -5,8 +5,8 @@ from ..extra_c01 import extra_run, matches_known
 globals().update(
     make(
         pid="C01",
-        props=["JaqalProofs/Props/C01.lean", "JaqalProofs/Props/C01Literals.lean", "JaqalProofs/Props/C01Autoload.lean"],
-        targets=["JaqalProofs.Props.C01", "JaqalProofs.Props.C01Literals", "JaqalProofs.Props.C01Autoload"],
+        props=["JaqalProofs/Props/C01.lean", "JaqalProofs/Props/C01Literals.lean", "JaqalProofs/Props/C01Autoload.lean", "JaqalProofs/Props/C01Builder.lean"],
+        targets=["JaqalProofs.Props.C01", "JaqalProofs.Props.C01Literals", "JaqalProofs.Props.C01Autoload", "JaqalProofs.Props.C01Builder"],
         diffs=[("harness.agents.c01_diff", 350, 700), ("harness.agents.num_diff", 1500, 3000)],
         extra_run=extra_run,
         known_matcher=matches_known,
